@@ -478,7 +478,28 @@ pub fn run_history_ext(line: &str, work: &Path, detail: bool, with_mem: bool) ->
                 if *at == k {
                     let a = query_text(&run_sql(&disk.rt, m, sql));
                     let b = query_text(&disk.sql(sql));
-                    qs.push(format!("{qi}:{a}~~{b}"));
+                    if a != b {
+                        // counterfactuals for the attribution of an engine difference: the disk
+                        // answer with the optimizer off (no key-range scan, no order elimination,
+                        // no cost-based join choice), and both plans
+                        let _ = disk.sql("pragma disable_optimizer");
+                        let c = query_text(&disk.sql(sql));
+                        let _ = disk.sql("pragma enable_optimizer");
+                        let plan = |o: Outcome| match o {
+                            Outcome::Ok(rows) => rows
+                                .first()
+                                .and_then(|r| r.first())
+                                .and_then(|v| v.strip_prefix("s:").map(|h| unhex_str(h)))
+                                .unwrap_or_default()
+                                .replace(['\t', '\n', ';', '~'], " "),
+                            _ => "?".into(),
+                        };
+                        let pm = plan(run_sql(&disk.rt, m, &format!("explain {sql}")));
+                        let pd = plan(disk.sql(&format!("explain {sql}")));
+                        qs.push(format!("{qi}:{a}~~{b}~~{c}~~{pm}~~{pd}"));
+                    } else {
+                        qs.push(format!("{qi}:{a}~~{b}"));
+                    }
                 }
             }
             mem_fields.push_str(&format!("\tqs={}", qs.join(";;")));
